@@ -1,20 +1,40 @@
+def _proj_c05(op, line):
+    # family sock: the model does not predict the schedule of a round behind real sockets, only the verdict (`ok`);
+    # the observation line is judged by the monitor alone
+    if op.startswith("round ") and line.startswith("obs "):
+        return "ok"
+    return line
+
 PROPS["C05"] = {
-    "families": {"link": {"quick": 120, "thorough": 4000}},
+    "families": {"link": {"quick": 120, "thorough": 4000}, "sock": {"quick": 6, "thorough": 150}},
     "mon_clauses": ["C05.", "C09.panic"],
+    "project": _proj_c05,
     "claim": "Two REAL engines (initiator + acceptor, memory or file stores) are driven through generated fault histories (sends on both sides also while disconnected, "
              "deliveries, cuts losing everything in flight, reconnects, restarts on the file store, heartbeats) and compared event by event with the Lean two-engine model; "
              "the prefix monitor (delivered is a prefix of submitted, both directions) is evaluated after every operation and equality after settling. "
              "Theorems: `C05_safety` — for ALL configurations (persistence on, resets off, mirrored CompIDs, same BeginString; everything else free) and ALL fault histories "
              "with non-empty payload ids and sequence numbers within Go's int, delivered is a prefix of submitted in both directions (in order, exactly once, nothing unsent); "
-             "`C05_invariant` (delivered = payloads of the peer's stored application messages below the expected number); meaning of the prefix clause, faithfulness of the links, "
+             "`C05_invariant` (delivered = payloads of the peer's stored application messages below the expected number); meaning of the prefix clause and of the monitor's silence "
+             "(`C05_monitor_silent_iff_safe`, `C05_monitor_settled_silent_iff`), faithfulness of the links, "
              "number round trip, per-engine delivery (C01). The statement without side conditions (`def C05_safety_full`) is FALSE of the model: an empty payload value is "
              "refused as malformed by the peer and consumed (#guard counterexample + theorem `C05_empty_payload_is_consumed`); the generator never produces one. "
              "Liveness: `C05_liveness_reconnect` — after EVERY fault history (ResendRequestChunkSize 0, roles fixed, ApplVerID under FIXT, head-room for the numbers) the schedule "
              "cut, connect, both Logons, one flush per side, deliveries ends with delivered = submitted in both directions, nothing in flight, both engines InSession "
              "(all gap cases); `C05_liveness_nogap` (no gap: delivering what is in flight suffices). The chunked case is NOT proved (`def C05_liveness_full`); it is sampled. "
-             "Deliveries + heartbeats alone can leave a link stuck (needs the peer/logon/logout timeouts or a reconnect): #guard + corpus/C05/stuck-without-timeouts.ops, same on the real engines.",
+             "Deliveries + heartbeats alone can leave a link stuck (needs the peer/logon/logout timeouts or a reconnect): #guard + corpus/C05/stuck-without-timeouts.ops, same on the real engines. "
+             "SAMPLED socket layer (family `sock`): a real quickfix.NewAcceptor and a real quickfix.NewInitiator (generated Settings: FIX.4.2/4.4/FIXT.1.1, memory or file store, "
+             "ResendRequestChunkSize 0-3, ReconnectInterval 0.2-1 s, HeartBtInt 1-2 s) talk through a TCP proxy of the harness on loopback that passes, splits, holds and releases bytes, "
+             "cuts the connection (losing what it holds) and refuses connections; both sides submit with SendToTarget also while the link is down; engines are stopped and recreated on the file store. "
+             "The Lean side predicts NO interleaving for these rounds, only the verdict the theorems give for every schedule; the same prefix monitor (`Qfx.Link.monLink`) decides each round: "
+             "at every delivery the delivered list is a prefix of what the other side had submitted, after settling (both logged on, everything delivered or three quiet heartbeat intervals, bound 10 s) "
+             "delivered = submitted in both directions, every OnLogon is closed by one OnLogout, no panic and no crashed process. This ties acceptor.go / initiator.go / connection.go / the run loop of session.go "
+             "to `C05_safety` ONLY through the monitor on the sampled rounds.",
     "note": "Lean kernel + standard axioms for the listed theorems; the Link model composes two copies of the session model that is tied to the code by the sess family; "
-            "sockets, goroutine scheduling, reconnect timers and bufio are outside the model (partial); liveness rests on the correspondence runs only",
-    "rule": "seeded fault histories of 30-80 events + settling rounds; BeginString 4.0-4.4/FIXT, chunk sizes 0-4 per side, memory/file store; distinct = distinct (configuration, case)",
-    "assumptions": ["sequence resets disabled; ToApp always accepts", "a cut loses everything still in flight (partial loss = deliveries followed by a cut)"],
+            "sockets, goroutine scheduling, reconnect timers and bufio are outside the model (partial): the family `sock` runs them for real but only SAMPLES schedules (the Go scheduler and TCP timing are not controlled, "
+            "a round is one schedule); liveness rests on the correspondence runs only",
+    "rule": "seeded fault histories of 30-80 events + settling rounds; BeginString 4.0-4.4/FIXT, chunk sizes 0-4 per side, memory/file store; distinct = distinct (configuration, case); "
+            "sock: one seeded round per case (1-4 link faults: cut, hold+cut, hold+release, outage, engine restart; 10-60 submissions), each in its own worker process, 3 (quick) / 6 (thorough) rounds in flight",
+    "assumptions": ["sequence resets disabled; ToApp always accepts", "a cut loses everything still in flight (partial loss = deliveries followed by a cut)",
+                    "sock: scheduler and TCP timing are outside the model; a round whose bounded waits ran out (not settled within 10 s, Stop not back within 8 s, worker silent) is repeated up to twice "
+                    "(at most 8 repeats per run) and only then reported as C05.sock_not_settled; a lost, duplicated or reordered message, a panic or a crash is never repeated"],
 }
